@@ -69,8 +69,8 @@ var histories = []history{
 	{Name: "hotwal", Setup: "O A A Sa0 A Sb1", Ops: "O A Sa0 A C"},
 }
 
-// the second crash level: recovery plus one append and one save, never closed
-const recoverOps = "O A Sa0"
+// the second crash level: recovery, one append, one save, close (checkpoint of the recovered WAL)
+const recoverOps = "O A Sa0 C"
 
 func historyByName(n string) (history, bool) {
 	for _, hh := range histories {
